@@ -7,6 +7,7 @@ use serde_json::Value;
 fn factory(model: &str) -> Option<Factory> {
     Some(match model {
         "proof_graph" => Box::new(|c: &Value| Box::new(models::proof_graph::PG::new(c)) as Box<dyn Model>),
+        "modules" => Box::new(|c: &Value| Box::new(models::modules::MM::new(c)) as Box<dyn Model>),
         _ => return None,
     })
 }
